@@ -5,7 +5,7 @@
    `rtu_frame_of`. A byte is an N below 256 (`bytes`). *)
 From Coq Require Import NArith List.
 From Rodbus Require Import Base.Outcome Base.Cursor Base.Frame Gen.RtuLengths Model.Buffer Model.Rtu Model.Crc Model.Reader Model.Format Spec.Framing
-  Proofs.BufferProofs Proofs.ReaderGeneric Proofs.CrcProofs Proofs.RtuProofs Proofs.C06Proofs.
+  Gen.ParserShape Proofs.BufferProofs Proofs.ReaderGeneric Proofs.CrcProofs Proofs.MbapProofs Proofs.RtuProofs Proofs.C06Proofs Proofs.ShapeProofs.
 Import ListNotations.
 
 (* Every frame written by format_rtu_pdu (any destination, any function byte, any body serializer
@@ -164,6 +164,23 @@ Theorem C06_reopen_gate : forall p chunks fi f, Forall bytes chunks ->
   exists pre post, fst (sched_stream chunks fi) = pre ++ rtu_frame_of (f_dest f) (f_pdu f) ++ post.
 Proof. exact rtu_reopen_gate. Qed.
 Print Assumptions C06_reopen_gate.
+
+(* PARSER SKELETON TIE. Gen/ParserShape.v lists, regenerated from serial/frame.rs on every run, the steps of the
+   three arms of RtuParser::parse in the code's order: Start (two bytes; the address is consumed, the function
+   code only looked at; by length_mode to ReadFullBody / ReadToOffsetForLength, unknown = error),
+   ReadToOffsetForLength (wait, look at the byte count, go to ReadFullBody(offset + count)), ReadFullBody (the
+   `1 + len > 253` check FIRST, then the wait, the two reads, the CRC over address ++ payload, the comparison).
+   The model's parser is the interpretation of those lists on every reachable state. *)
+Theorem C06_parser_shape : forall p st b, wf b -> bytes (b_pend b) -> rst_ok st ->
+  rtu_parse p st b =
+  (let '(st', b', r) :=
+     match st with
+     | Start => run_start_arm p rtu_start_arm b 0%N 0%N None
+     | ReadToOffsetForLength d off => run_offset_arm rtu_offset_arm d off b 0 None
+     | ReadFullBody d len => run_full_arm rtu_full_arm d len (racc0 (ReadFullBody d len) b)
+     end in (st', b', lift_s r)).
+Proof. exact rtu_model_shape. Qed.
+Print Assumptions C06_parser_shape.
 
 (* The RTU client (and any other user of one FramedReader across port reopenings that resets it
    at connection start, as ClientLoop::run does): every connection's stream is delimited and
